@@ -514,9 +514,9 @@ def _c20_parts():
                 d = copy.deepcopy(p)
                 d["name"] = pid.lower() + "-" + pname
                 d["race_only"] = True
-                if pname == "seams":
-                    # the admission paths release buffers on their own refusal branches: the plain build (full ownership bookkeeping:
-                    # double / foreign release) runs as well as the race build
+                if pname in ("seams", "transports"):
+                    # the admission paths release buffers on their own refusal branches, the transports on their big-reply and
+                    # error paths: the plain build (full ownership bookkeeping: double / foreign release) runs as well as the race build
                     d["race_only"], d["race"] = False, True
                 d["env"] = dict(d.get("env", {}), VERIF_ONLY_OWNERSHIP="1")
                 d["params"] = {"quick": dict(d.get("params", {}).get("quick", {}), **q), "thorough": dict(d.get("params", {}).get("thorough", {}), **t)}
@@ -644,6 +644,9 @@ def _request_path(pause):
 
 for _pid in ("C04", "C12", "C20", "C19"):
     SPECS[_pid]["parts"].append(_request_path(True))
+
+# real clients against every listener kind in a child process (C01's part): "later valid queries are still answered" is C03's clause too
+SPECS["C03"]["parts"].append(dict([dict(p) for p in SPECS["C01"]["parts"] if p["name"] == "listeners"][0], name="real-listeners"))
 
 # the DoQ listener's accept loop and stream handlers under pause points: overlapping streams of one connection
 SPECS["C03"]["parts"].append(router_part("doq-overlap-preempt", "TestVerifC03QuicOverlap", ["zz_verif_c03_test.go"], engines=E4ENGINES,
